@@ -1817,7 +1817,7 @@ func makeInterfaceArshaler(t reflect.Type) *arshaler {
 	var whichMarshaler reflect.Type
 	for _, iface := range allMarshalerTypes {
 		if t.Implements(iface) {
-			whichMarshaler = t
+			whichMarshaler = iface
 			break
 		}
 	}
